@@ -62,7 +62,8 @@ func (cr *CryptoSignAuthenticator) Authenticate(sid wamp.ID, details wamp.Dict, 
 
 	// Get the key and authrole needed for signing the challenge string.
 	key, err := cr.keyStore.AuthKey(authid, cr.AuthMethod())
-	if err != nil {
+	if err != nil || len(key) == 0 {
+		// No public key: verifying against the all-zero key must never succeed.
 		return nil, errors.New("failed to retrieve key")
 	}
 
